@@ -559,6 +559,12 @@ func (wd *world) actStore(t *rapid.T) {
 			}
 		}
 	}
+	var announced []*msg // addressed messages the session knows about before the command
+	for _, m := range target {
+		if inView(s, m) {
+			announced = append(announced, m)
+		}
+	}
 	lines, st := wd.run(s, "STORE", uid, text)
 	if st.Status != "OK" {
 		wd.fail("%s: %s", text, st.Raw)
@@ -570,10 +576,7 @@ func (wd *world) actStore(t *rapid.T) {
 		return
 	}
 	got := wd.fetchLines(lines, text)
-	for _, m := range target {
-		if !inView(s, m) {
-			continue
-		}
+	for _, m := range announced {
 		ok := false
 		for _, f := range got[m.uid] {
 			if fl, has := flagSet(f.Items["FLAGS"]); has && sameFlags(fl, m.flags) {
@@ -733,8 +736,12 @@ func (wd *world) actSearch(t *rapid.T) {
 	b := s.sel
 	n := rapid.IntRange(1, 3).Draw(t, "nkeys")
 	var ks []*skey
+	var sizes []int
+	for _, m := range b.msgs {
+		sizes = append(sizes, len(m.raw))
+	}
 	for i := 0; i < n; i++ {
-		ks = append(ks, genKey(t, 0, uint32(len(b.msgs)), b.uidNext))
+		ks = append(ks, genKey(t, 0, uint32(len(b.msgs)), b.uidNext, sizes))
 	}
 	var parts []string
 	for _, k := range ks {
@@ -749,6 +756,16 @@ func (wd *world) actSearch(t *rapid.T) {
 		wd.fail("%s: %s", text, st.Raw)
 	}
 	wd.query("SEARCH")
+	for _, k := range ks {
+		if k.usesSent() {
+			for _, m := range b.msgs {
+				if _, ok := m.p.get("Date"); !ok {
+					wd.classes["search-not-judged:SENT*-on-message-without-Date"]++
+					return
+				}
+			}
+		}
+	}
 	var want []uint32
 	for i, m := range b.msgs {
 		ok := true
@@ -867,7 +884,11 @@ func (wd *world) actFetch(t *rapid.T) {
 			items[len(items)-1].key = items[len(items)-1].req
 		default:
 			req, key, f, seen, class := genSection(t)
-			items = append(items, item{req: req, key: key, kind: "bytes", want: f})
+			if key == "" {
+				items = append(items, item{req: req, key: req, kind: "survive", want: f})
+			} else {
+				items = append(items, item{req: req, key: key, kind: "bytes", want: f})
+			}
 			seenFlag = seenFlag || seen
 			wd.classes[class]++
 		}
@@ -892,7 +913,7 @@ func (wd *world) actFetch(t *rapid.T) {
 	// defined for every expected message?
 	for _, m := range expect {
 		for _, it := range items {
-			if it.kind == "bytes" {
+			if it.kind == "bytes" || it.kind == "survive" {
 				if _, ok := it.want(m); !ok {
 					return // section not defined by the RFC for this message shape
 				}
@@ -907,7 +928,8 @@ func (wd *world) actFetch(t *rapid.T) {
 			}
 		}
 	}
-	t0 := time.Now().Add(-2 * time.Second)
+	wasSync := !wd.stale(s)
+	viewBefore := append([]*msg(nil), s.view...)
 	lines, st := wd.run(s, "FETCH", uid, text)
 	if st.Status != "OK" {
 		wd.fail("%s: %s", text, st.Raw)
@@ -921,6 +943,9 @@ func (wd *world) actFetch(t *rapid.T) {
 		for _, c := range got[m.uid] {
 			all := true
 			for _, it := range items {
+				if it.kind == "survive" {
+					continue
+				}
 				if _, ok := c.Items[it.key]; !ok {
 					all = false
 				}
@@ -933,7 +958,7 @@ func (wd *world) actFetch(t *rapid.T) {
 		if f == nil {
 			wd.fail("%s: no FETCH data with the requested items for UID %d (message %s); got %d lines for it; expected UIDs %v", text, m.uid, m.label, len(got[m.uid]), uids(expect))
 		}
-		if idx := indexOf(s.view, m); !wd.stale(s) && int(f.Seq) != idx+1 {
+		if idx := indexOf(viewBefore, m); wasSync && int(f.Seq) != idx+1 {
 			wd.fail("%s: UID %d reported as message %d, model says %d", text, m.uid, f.Seq, idx+1)
 		}
 		for _, it := range items {
@@ -967,7 +992,6 @@ func (wd *world) actFetch(t *rapid.T) {
 			}
 		}
 	}
-	_ = t0
 	// data for messages that were not addressed may only be flag updates
 	for u, fs := range got {
 		if isExpected[u] {
@@ -997,6 +1021,92 @@ func indexOf(l []*msg, m *msg) int {
 		}
 	}
 	return -1
+}
+
+// actStaleSeq: a sequence-number FETCH or STORE issued by a session whose view
+// is stale. Sequence numbers mean the session's view: message n is the n-th
+// message it has been told about, '*' the last one. Messages already removed
+// by someone else cannot be returned. The session is re-synchronised right
+// after, which also checks the announced list against the model.
+func (wd *world) actStaleSeq(t *rapid.T) {
+	var c []*sess
+	for _, s := range wd.ss {
+		if wd.stale(s) {
+			c = append(c, s)
+		}
+	}
+	if len(c) == 0 {
+		return
+	}
+	s := c[pick(t, "session", len(c))]
+	view := append([]*msg(nil), s.view...)
+	ns := genSet(t, uint32(len(view)))
+	alive := map[*msg]bool{}
+	for _, m := range s.sel.msgs {
+		alive[m] = true
+	}
+	var expect []*msg
+	pos := map[*msg]int{}
+	for i, m := range view {
+		pos[m] = i + 1
+		if ns.contains(uint32(i+1), uint32(len(view))) && alive[m] {
+			expect = append(expect, m)
+		}
+	}
+	store := pick(t, "store", 3) == 0
+	text := fmt.Sprintf("FETCH %s (UID)", ns)
+	if store {
+		text = fmt.Sprintf("STORE %s +FLAGS (stale)", ns)
+		for _, m := range expect {
+			m.flags["stale"] = true
+		}
+	}
+	wd.classes["stale-sequence-command"]++
+	name := "FETCH"
+	if store {
+		name = "STORE"
+	}
+	lines, st := wd.run(s, name, false, text+"")
+	wd.hist[len(wd.hist)-1] += fmt.Sprintf(" [stale view %v, mailbox %v]", uids(view), uids(s.sel.msgs))
+	if st.Status == "OK" {
+		got := map[uint32]*mem.Fetch{}
+		for _, l := range lines {
+			f, ok := mem.ParseFetch(l)
+			if !ok {
+				continue
+			}
+			_, hasFlags := f.Items["FLAGS"]
+			if store != hasFlags {
+				continue // an unsolicited flag update / not the answer shape
+			}
+			u, _ := mem.Num(f.Items["UID"])
+			if store && !strings.Contains(strings.ToLower(f.Items["FLAGS"].String()), "stale") {
+				continue
+			}
+			got[u] = f
+		}
+		for _, m := range expect {
+			f := got[m.uid]
+			if f == nil {
+				wd.fail("%s by a session whose view is %v (mailbox now %v): no data for its message %d (UID %d)", text, uids(view), uids(s.sel.msgs), pos[m], m.uid)
+			}
+			if int(f.Seq) != pos[m] {
+				wd.fail("%s by a session whose view is %v: UID %d reported as message %d, it is message %d of that view", text, uids(view), m.uid, f.Seq, pos[m])
+			}
+			delete(got, m.uid)
+		}
+		for u := range got {
+			wd.fail("%s by a session whose view is %v (mailbox now %v): data for UID %d which the set does not address in that view (expected UIDs %v)", text, uids(view), uids(s.sel.msgs), u, uids(expect))
+		}
+		if store && len(expect) > 0 {
+			wd.mutated()
+		}
+	} else if store {
+		for _, m := range expect {
+			delete(m.flags, "stale") // refused as a whole
+		}
+	}
+	wd.run(s, "NOOP", false, "NOOP")
 }
 
 // audit: a fresh connection must see exactly the model, for every mailbox.
@@ -1069,8 +1179,8 @@ var actionWeights = []struct {
 	name string
 	w    int
 }{
-	{"create", 4}, {"delete", 2}, {"rename", 2}, {"subscribe", 3}, {"list", 5}, {"status", 6}, {"append", 16}, {"select", 7}, {"unselect", 2},
-	{"store", 12}, {"copymove", 9}, {"expunge", 7}, {"search", 14}, {"fetch", 14}, {"open", 2}, {"noop", 3},
+	{"create", 2}, {"delete", 2}, {"rename", 2}, {"subscribe", 3}, {"list", 5}, {"status", 6}, {"append", 16}, {"select", 7}, {"unselect", 2},
+	{"store", 12}, {"copymove", 9}, {"expunge", 7}, {"search", 14}, {"fetch", 14}, {"open", 2}, {"noop", 3}, {"staleseq", 8},
 }
 
 func runHistory(t *rapid.T) {
@@ -1087,7 +1197,7 @@ func runHistory(t *rapid.T) {
 	acts := map[string]func(*rapid.T){
 		"create": wd.actCreate, "delete": wd.actDelete, "rename": wd.actRename, "subscribe": wd.actSubscribe, "list": wd.actList, "status": wd.actStatus,
 		"append": wd.actAppend, "select": wd.actSelect, "unselect": wd.actUnselect, "store": wd.actStore, "copymove": wd.actCopyMove, "expunge": wd.actExpunge,
-		"search": wd.actSearch, "fetch": wd.actFetch,
+		"search": wd.actSearch, "fetch": wd.actFetch, "staleseq": wd.actStaleSeq,
 		"open": func(*rapid.T) {
 			if len(wd.ss) < 3 {
 				wd.open()
@@ -1121,3 +1231,31 @@ func runHistory(t *rapid.T) {
 }
 
 func TestPropModel(t *testing.T) { rapid.Check(t, runHistory) }
+
+// TestKnownSmallerZero: F-C09e - "SEARCH SMALLER 0" must match nothing (no
+// message is smaller than 0 octets) but imap.SearchCriteria represents an
+// absent SMALLER key as 0, so the backend returns every message.
+func TestKnownSmallerZero(t *testing.T) {
+	w := mem.Start("INBOX")
+	defer w.Stop()
+	c, err := w.Dial()
+	if err != nil {
+		t.Fatal(err)
+	}
+	defer c.Close()
+	c.Append("INBOX", "", template(0, 0).full())
+	c.Append("INBOX", "", template(5, 1).full())
+	c.Do("SELECT", false, "SELECT INBOX")
+	lines, st, err := c.Do("SEARCH", false, "SEARCH SMALLER 0")
+	if err != nil || st.Status != "OK" {
+		t.Fatalf("SEARCH SMALLER 0: %v %v", st, err)
+	}
+	n := 0
+	for _, l := range lines {
+		if tk := mem.Toks(l); len(tk) > 0 && strings.EqualFold(tk[0].S, "SEARCH") {
+			n += len(tk) - 1
+		}
+	}
+	ev.Eval()
+	ev.Known("F-C09e", n > 0)
+}
